@@ -35,6 +35,23 @@ def configs():
                     yield {'n': n, 'k': k, 'final': final, 'retry': retry}
 
 
+def extra_configs():
+    """object published under a longer name than the one asked for (version component), and the other accepted forms of the
+    name argument (component list, one-shot generator, wire bytes)"""
+    for retry in (1, 2):
+        for n in (1, 2, 3):
+            for k in range(n):
+                for final in ('last-only', 'absent'):
+                    yield {'n': n, 'k': k, 'final': final, 'retry': retry, 'ver': True}
+        yield {'n': 0, 'k': None, 'final': 'absent', 'retry': retry, 'ver': True}
+        for form in ('list', 'gen', 'bytes'):
+            yield {'n': 0, 'k': None, 'final': 'absent', 'retry': retry, 'form': form}
+            for n in (2, 3):
+                for k in (0, n - 1):
+                    yield {'n': n, 'k': k, 'final': 'last-only', 'retry': retry, 'form': form}
+    yield {'n': 2, 'k': 1, 'final': 'last-only', 'retry': 3, 'form': 'gen', 'ver': True}
+
+
 def final_of(cfg, seg):
     n = cfg['n']
     f = cfg['final']
@@ -117,6 +134,9 @@ def execute(cfg, decisions):
         loop.create_task(app.main_loop())
         loop.drain()
         base = enc.Name.from_str(PREFIX)
+        dbase = base + [enc.Component.from_version(7)] if cfg.get('ver') else base
+        form = cfg.get('form', 'str')
+        name_arg = {'str': PREFIX, 'list': list(base), 'gen': (c for c in list(base)), 'bytes': bytes(enc.Name.to_bytes(base))}[form]
 
         def seg_data(seg):
             fb = final_of(cfg, seg)
@@ -125,7 +145,7 @@ def execute(cfg, decisions):
                 # the number of this very segment, but as a generic (not a segment) component: not the last name component
                 fbid = bytes(enc.Component.from_number(seg, enc.Component.TYPE_GENERIC))
             mi = enc.MetaInfo(freshness_period=1000, final_block_id=fbid)
-            return bytes(enc.make_data(base + [enc.Component.from_segment(seg)], mi, b'segment-%d' % seg, DigestSha256Signer()))
+            return bytes(enc.make_data(dbase + [enc.Component.from_segment(seg)], mi, b'segment-%d' % seg, DigestSha256Signer()))
 
         def on_send(wire):
             r = ns.read_interest(wire)
@@ -135,7 +155,7 @@ def execute(cfg, decisions):
             d = decisions[i] if i < len(decisions) else 'a'
             if name == [bytes(c) for c in base]:
                 kind, seg = 'disc', None
-            elif name[:-1] == [bytes(c) for c in base] and name[-1][0] == 0x32:
+            elif name[:-1] == [bytes(c) for c in dbase] and name[-1][0] == 0x32:
                 kind, seg = 'seg', int.from_bytes(name[-1][2:], 'big')
             else:
                 kind, seg = 'other', None
@@ -150,7 +170,7 @@ def execute(cfg, decisions):
                 face.deliver(bytes(enc.make_network_nack(wire, 150 if d == 'n' else 100)))
                 return
             if kind == 'disc':
-                data = seg_data(cfg['k']) if cfg['n'] else bytes(enc.make_data(base, enc.MetaInfo(freshness_period=1000), b'whole-object', DigestSha256Signer()))
+                data = seg_data(cfg['k']) if cfg['n'] else bytes(enc.make_data(dbase, enc.MetaInfo(freshness_period=1000), b'whole-object', DigestSha256Signer()))
             else:
                 data = seg_data(seg)
             state['invalid'] = d == 'i'
@@ -164,7 +184,7 @@ def execute(cfg, decisions):
 
         async def consumer():
             try:
-                async for content in segment_fetcher(app, PREFIX, timeout=100, retry_times=cfg['retry'], validator=validator):
+                async for content in segment_fetcher(app, name_arg, timeout=100, retry_times=cfg['retry'], validator=validator):
                     out.yields.append(bytes(content))
                 out.terminal = 'ok'
             except nt.InterestTimeout:
@@ -189,7 +209,7 @@ def judge(cfg, decisions, run):
     viol = []
     ys, term, reqs = reference(cfg, decisions)
     want = [b'whole-object' if y == 'U' else b'segment-%d' % y for y in ys]
-    tag = f"n={cfg['n']}|k={cfg['k']}|final={cfg['final']}"
+    tag = f"n={cfg['n']}|k={cfg['k']}|final={cfg['final']}" + ('|versioned' if cfg.get('ver') else '') + (f"|name-as-{cfg['form']}" if cfg.get('form') else '')
     if not run.done:
         viol.append(('C19|never-finishes', f'{tag}: fetch did not finish; decisions {decisions}'))
         return viol
@@ -242,7 +262,7 @@ def explore_cfg(cfg, dbound, on_run):
 
 def plan(tier, seed):
     d = 4 if tier == 'quick' else 6
-    units = [{'cfg': c, 'd': d} for c in configs()]
+    units = [{'cfg': c, 'd': d} for c in configs()] + [{'cfg': c, 'd': min(d, 3)} for c in extra_configs()]
     return {
         'units': units,
         'rule': 'execution = (object size, discovery answer, final-block variant, retry limit, answer pattern); answer patterns = all '
@@ -264,7 +284,7 @@ def unit(arg):
         acc.transitions += run.attempts + run.steps
         acc.observe([cfg, list(prefix), [y.decode() for y in run.yields], run.terminal])
         acc.outcome(f"n={cfg['n']}|{run.terminal}|yields={len(run.yields)}")
-        acc.state((cfg['n'], cfg['k'], cfg['final'], cfg['retry'], tuple(prefix), tuple(run.yields), run.terminal))
+        acc.state((cfg['n'], cfg['k'], cfg['final'], cfg['retry'], cfg.get('ver'), cfg.get('form'), tuple(prefix), tuple(run.yields), run.terminal))
         if any(d != 'a' for d in prefix) or (cfg['k'] or 0) > 0:
             acc.nontrivial += 1
         for sig, what in judge(cfg, list(prefix), run):
